@@ -102,4 +102,114 @@ static inline int16_t syn_mix(int16_t a, uint16_t b, long long w) {
     r = (int16_t)(~r);
     return w < 0 ? (int16_t)-r : (!b ? a : r);
 }
+/* ---------------------------------------------------------------------------------------------------------------
+ * stage 2: arrays, pointer walks, out-parameters, tables (constructs the carquet functions of FUNCS do not use)
+ * --------------------------------------------------------------------------------------------------------------- */
+#include <string.h>
+
+static const uint16_t SYN_TAB2[3][4] = { {1, 2, 3, 4}, {50, 60, 70, 80}, {900, 1000} };   /* 2-D, last row zero-filled */
+static const int32_t SYN_BIAS = -7;                                                    /* constant scalar global */
+static const int8_t SYN_SIGNS[5] = { -1, 1, -128, 127, 0 };
+
+/* `*(p + e)`, `end - p` as a value, pointer decrement, `p[-1]`, a (p, end) pair, signed elements */
+static inline int64_t syn_walk_back(const int8_t* p, const int8_t* end) {
+    int64_t acc = end - p;
+    const int8_t* q = end;
+    while (q > p) {
+        acc = acc * 3 + q[-1];
+        q--;
+    }
+    if (end - p >= 2) acc += *(p + 1);
+    return acc;
+}
+
+/* 16-bit elements, `for` with break, a read guarded by `&&`, index arithmetic in size_t */
+static inline uint32_t syn_find16(const uint16_t* a, size_t n, uint16_t key) {
+    uint32_t pos = 0xFFFFFFFFu;
+    for (size_t i = 0; i < n; i++) {
+        if (a[i] == key && (i + 1 >= n || a[i + 1] != key)) {
+            pos = (uint32_t)i;
+            break;
+        }
+    }
+    return pos;
+}
+
+/* 2-D constant table, constant scalar, signed table elements: every index obligation is static */
+static inline int32_t syn_tables(unsigned r, unsigned c, int k) {
+    return (int32_t)SYN_TAB2[r][c] * SYN_SIGNS[k] + SYN_BIAS;
+}
+
+/* an uninitialised local array filled by a loop, then read (reads of unwritten elements are undefined: n < 4),
+ * an initialised one with a zero-filled tail, `a[i++]`, prefix `--j` in an expression */
+static inline uint32_t syn_locals(uint32_t key, int n) {
+    uint32_t mask[4];
+    uint8_t init[6] = { 3, 1, 4 };
+    int i = 0;
+    while (i < n && i < 4) {
+        mask[i] = key * (uint32_t)(i + 1);
+        i++;
+    }
+    int j = 4;
+    uint32_t acc = init[5] + init[1];
+    do {
+        acc = acc * 31 + mask[--j];
+    } while (j > 0);
+    return acc ^ init[i++ % 6];
+}
+
+/* a callee with an out-parameter and a buffer write, used in the three supported positions; `p + k` passed on */
+static inline int syn_put16(uint8_t* dst, uint16_t v, uint32_t* sum) {
+    dst[0] = (uint8_t)v;
+    dst[1] = (uint8_t)(v >> 8);
+    *sum += v;
+    return v > 255 ? 2 : 1;
+}
+static inline int syn_put_many(uint8_t* buf, uint16_t a, uint16_t b, uint32_t* total) {
+    uint32_t sum = 1;
+    int n = syn_put16(buf, a, &sum);
+    int m;
+    m = syn_put16(buf + 2, b, &sum);
+    syn_put16(buf + 4, (uint16_t)(n + m), &sum);
+    *total = sum;
+    return n + m;
+}
+
+/* big-endian assembly by hand next to the memcpy idiom: a load that is NOT the little-endian one */
+static inline uint32_t syn_be_le(const uint8_t* p) {
+    uint32_t le;
+    memcpy(&le, p + 1, sizeof le);
+    uint32_t be = ((uint32_t)p[0] << 24) | ((uint32_t)p[1] << 16) | ((uint32_t)p[2] << 8) | (uint32_t)p[3];
+    return be ^ le;
+}
+
+/* a loop nest of depth 2 with a data-dependent inner bound, `p += k` with a variable, a store through `*out` on one
+ * path only */
+static inline size_t syn_runs(const uint8_t* data, size_t size, uint32_t* longest) {
+    const uint8_t* p = data;
+    const uint8_t* end = data + size;
+    size_t runs = 0;
+    uint32_t best = 0;
+    while (p < end) {
+        size_t len = 1;
+        while (p + len < end && p[len] == p[0] && len < 9) {
+            len++;
+        }
+        if (len > best) best = (uint32_t)len;
+        p += len;
+        runs++;
+    }
+    if (runs > 0) *longest = best;
+    return runs;
+}
+/* a do-while whose body runs although the condition is false from the start (n = 0), with a break */
+static inline uint32_t syn_do_once(uint32_t x, uint32_t n) {
+    uint32_t c = 0;
+    do {
+        x = x * 3u + 1u;
+        if (x == 0xFFFFFFFFu) break;
+        c++;
+    } while (c < n && c < 20);
+    return x + c;
+}
 #endif
